@@ -367,3 +367,30 @@ if (true) {
     // TODO impossible, we don't support nested replacement
   }
 }
+
+#[cfg(feature = "verif-hooks")]
+pub mod verif_hooks {
+  use super::*;
+  /// (fragments, [(kind, name, indent)]) with kind 0 = Single, 1 = Multiple, 2 = Transformed;
+  /// a `Textual` template is `([text], [])`
+  pub fn create_template_dump(
+    tmpl: &str,
+    mv_char: char,
+    transforms: &[String],
+  ) -> (Vec<String>, Vec<(u8, String, usize)>) {
+    match create_template(tmpl, mv_char, transforms) {
+      TemplateFix::Textual(s) => (vec![s], vec![]),
+      TemplateFix::WithMetaVar(t) => (
+        t.fragments,
+        t.vars
+          .into_iter()
+          .map(|(v, i)| match v {
+            MetaVarExtract::Single(n) => (0, n, i),
+            MetaVarExtract::Multiple(n) => (1, n, i),
+            MetaVarExtract::Transformed(n) => (2, n, i),
+          })
+          .collect(),
+      ),
+    }
+  }
+}
